@@ -13,7 +13,6 @@ from .c10 import RULES as C10_RULES, K_of as c10_K, TYPES
 
 K = dict(prec=["not", "and", "or"], paren=False, sep=1, orin=True, andin=False, inwild=False, sw=True, ew=True, ct=True, wm=False,
          cs="full", nexists=True, cidr=False, noteq=False, allowspecial=False)
-FRAGILE = re.compile(r"(?<!\\)(?:\\\\)*\\\\(?:[*?]|\\[*?\\])")
 
 
 def _res(fn):
@@ -56,6 +55,11 @@ def extra_docs():
     f3 = copy.deepcopy(ns["FILTER"])
     f3["logsource"]["vendor_hint"] = "foo"
     docs.append(("filter", f3))
+    # a taxonomy of the author's own; a rule with the bare minimum of metadata
+    r5 = copy.deepcopy(ns["RULE"])
+    r5["taxonomy"] = "acme"
+    docs.append(("rule", r5))
+    docs.append(("rule", {"title": "Minimal", "logsource": {"category": "c"}, "detection": {"sel": {"fieldA": "a"}, "condition": "sel"}}))
     for t in TYPES:
         c = copy.deepcopy(ns["CORR"])
         c["correlation"]["type"] = t
@@ -77,6 +81,25 @@ def extra_docs():
     return docs
 
 
+META = ["id", "name", "taxonomy", "status", "level", "author", "description", "license", "references", "tags", "fields",
+        "falsepositives", "scope", "related", "custom_attributes"]
+DATES = ["date", "modified"]
+META_TEMPLATE = "{{ query }}" + "".join("\x1e{{ rule.%s }}" % a for a in META) + "".join(
+    "\x1e{%% if rule.%s %%}{{ rule.%s.year }}-{{ rule.%s.month }}-{{ rule.%s.day }}{%% endif %%}" % (a, a, a, a) for a in DATES)
+
+
+def convert_meta(x):
+    """The rule converted by a backend whose output template prints the rule's metadata (dates: the day only - the time
+    of day a YAML timestamp may carry is not part of a Sigma date): [[attribute, text], ...]."""
+    from sigma.processing.pipeline import ProcessingPipeline
+
+    pipe = ProcessingPipeline.from_dict({"name": "meta", "priority": 10, "postprocessing": [{"type": "template", "template": META_TEMPLATE}]})
+    qs = make_backend(K, pipe).convert_rule(x)
+    parts = qs[0].split("\x1e")[1:]
+    assert len(parts) == len(META) + len(DATES)
+    return [[a, cps(t)] for a, t in zip(META + DATES, parts)]
+
+
 def drive_case(case):
     import yaml
     from sigma.rule import SigmaRule
@@ -92,10 +115,13 @@ def drive_case(case):
     else:
         doc = case["pydoc"]
         cls = {"rule": SigmaRule, "corr": SigmaCorrelationRule, "filter": SigmaFilter}[kind]
-    o = {"id": case["id"], "kind": kind, "doc": case.get("doc", {"dets": [], "conds": []})}
+    o = {"id": case["id"], "kind": kind, "doc": case.get("doc", {"dets": [], "conds": []}), "strs": []}
+    if case.get("harvested") and kind == "rule":
+        o["strs"] = [cps(t) for t in _strings(doc.get("detection"))][:200]
     loaded = _res(lambda: cls.from_dict(copy.deepcopy(doc)))
     o["load"] = {k: v for k, v in loaded.items() if k != "out"}
     empty = {"ok": False, "out": [], "exc": "", "sigma": False}
+    o["m1"] = o["m2"] = {"ok": True, "out": [], "exc": "", "sigma": False}
     if not loaded["ok"]:
         o.update(q1=empty, d1=empty, reload=empty, d2=empty, d3=empty, q2=empty)
         return o
@@ -104,6 +130,13 @@ def drive_case(case):
     def convert(x):
         if isinstance(x, SigmaRule):
             return [cps(q) for q in make_backend(K).convert_rule(x)]
+        if isinstance(x, SigmaCorrelationRule) and case.get("harvested"):
+            # a document of the repository's tests: a stand-in rule for every reference it makes
+            stubs = [SigmaRule.from_dict(dict({"title": "stub", "logsource": {"category": "c"}, "detection": {"sel": {"fieldA": "v1"}, "condition": "sel"}},
+                                              **({"id": r.reference} if _is_uuid(r.reference) else {"name": r.reference})))
+                     for r in x.rules]
+            b = make_backend(c10_K({"tsmode": "pass", "typing": False, "norm": True, "optin": False, "pipe": "none"}))
+            return [cps(q) for q in b.convert(SigmaCollection(stubs + [x]))]
         if isinstance(x, SigmaCorrelationRule):
             coll = SigmaCollection(copy.deepcopy([SigmaRule.from_dict(copy.deepcopy(r)) for r in C10_RULES[:1]]) + [x])
             b = make_backend(c10_K({"tsmode": "pass", "typing": False, "norm": True, "optin": False, "pipe": "none"}))
@@ -119,7 +152,10 @@ def drive_case(case):
     if kind == "corr":
         # the pool rule the base correlation refers to
         doc2 = copy.deepcopy(doc)
-    o["q1"] = _res(lambda: convert(obj)) if kind != "corr" else _res(lambda: convert(_corr_for_conv(cls, doc)))
+    refit = kind == "corr" and not case.get("harvested")
+    o["q1"] = _res(lambda: convert(obj)) if not refit else _res(lambda: convert(_corr_for_conv(cls, doc)))
+    if kind == "rule" and "pydoc" in case:
+        o["m1"] = _res(lambda: convert_meta(obj))
     d1 = _res(lambda: obj.to_dict())
     o["d1"] = dict(d1, out=canon(d1["out"]) if d1["ok"] else [])
     if not d1["ok"]:
@@ -134,8 +170,31 @@ def drive_case(case):
     o["d2"] = dict(d2, out=canon(d2["out"]) if d2["ok"] else [])
     d3 = _res(lambda: cls.from_yaml(yaml.safe_dump(d1["out"], sort_keys=False)).to_dict())
     o["d3"] = dict(d3, out=canon(d3["out"]) if d3["ok"] else [])
-    o["q2"] = _res(lambda: convert(re1["out"])) if kind != "corr" else _res(lambda: convert(_corr_for_conv(cls, d1["out"])))
+    o["q2"] = _res(lambda: convert(re1["out"])) if not refit else _res(lambda: convert(_corr_for_conv(cls, d1["out"])))
+    if kind == "rule" and "pydoc" in case:
+        o["m2"] = _res(lambda: convert_meta(re1["out"]))
     return o
+
+
+def _strings(v):
+    if isinstance(v, str):
+        yield v
+    elif isinstance(v, dict):
+        for x in v.values():
+            yield from _strings(x)
+    elif isinstance(v, list):
+        for x in v:
+            yield from _strings(x)
+
+
+def _is_uuid(t):
+    import uuid
+
+    try:
+        uuid.UUID(t)
+        return True
+    except (ValueError, AttributeError, TypeError):
+        return False
 
 
 def _corr_for_conv(cls, doc):
@@ -154,11 +213,22 @@ def _corr_for_conv(cls, doc):
 def run(tier: str, seed: int) -> int:
     chk = Check("C06", tier, seed, "exploration")
     chk.model_check("MC_Serial")
+    from .. import tlc
+
+    neg = tlc.run_tlc("MC_Serial", "MC_Serial_negative.cfg", workers=4, check_ok=False)
+    if neg.invariant_violated != "MetaRoundTrip":
+        raise tlc.MachineryError("negative control: TLC found no counterexample for a dict form without the related list")
+    chk.coverage["negative_control"] = {"cfg": "MC_Serial_negative.cfg (to_dict leaves one attribute out)", "refuted_invariant": neg.invariant_violated}
     n = NPROC
     cases = chk.generate("Gen_C06", shards=list(range(n)), env={"VERIF_NSHARDS": n})
     base = max(c["id"] for c in cases) + 1
     for i, (kind, d) in enumerate(extra_docs()):
         cases.append({"id": base + i, "kind": kind, "pydoc": d})
+    from ..harvest import harvest
+
+    hv = [h for h in harvest({"doc"})["doc"] if isinstance(h["doc"], dict)]
+    chk.coverage["harvested_from_repository_tests"] = len(hv)
+    cases += [{"id": 7_000_000 + i, "kind": h["cls"], "pydoc": h["doc"], "harvested": True} for i, h in enumerate(hv)]
     obs = drive("harness.props.c06", "drive_case", cases)
     verdicts = chk.judge("Judge_C06", obs)
     from .. import corrupt as _corrupt
@@ -183,7 +253,9 @@ def run(tier: str, seed: int) -> int:
         "interest, maps, lists of maps, keyword lists) with one and two conditions; every string value <=3 (thorough 4) over "
         "{backslash, *, ?, quote, a, space} under 6 modifier chains; every body after each of 11 transformation lists (object "
         "changed by a pipeline); the driver adds a metadata-rich rule in both date spellings, correlation rules of all 8 types "
-        "with aliases / extended condition, and filters; non-trivial = loads and converts",
+        "with aliases / extended condition, and filters; every rule, correlation and filter document the repository's own tests load "
+        "(harvested); metadata-rich rules are also converted by a backend that prints every metadata attribute; non-trivial = "
+        "loads and converts",
         samples=samples,
         traces=len(obs),
         exhaustive=True,
